@@ -13,7 +13,6 @@ pub fn prop() -> HistProp {
     let mut rc = RunCfg::new(&[Aspect::Dirty, Aspect::Panic, Aspect::Budget]);
     rc.dirty = true;
     rc.flush_each = false;
-    rc.known.dst_inside_src = true;
     let mut gc = GenCfg::mixed();
     gc.max_ops = 14;
     gc.status0 = vec![0, 0, 1, 2, 3];
